@@ -104,7 +104,7 @@ def check(run):
         before = bytes.fromhex(kv(gl[2]).get("body", "")).decode("utf-8", "replace")
         after = bytes.fromhex(kv(gl[6]).get("body", "")).decode("utf-8", "replace")
         if "webchat.example.com" in before and "webchat.example.com" not in after:
-            run.violation("oracle:origins-lost", "WhitelistedOrigins is in force before snapshot+restore and gone afterwards (the snapshot format has no field for it)",
+            run.violation("oracle:origins-lost", "the posted WhitelistedOrigins are shown by GET /config before snapshot+restore and gone afterwards",
                           {"kind": "api", "ops": oops, "before": before[-200:], "after": after[-200:]}, True)
         elif "webchat.example.com" not in before:
             bad = bad or ("content", "posted WhitelistedOrigins not shown by GET /config", oops)
